@@ -38,6 +38,7 @@ type Call struct {
 	Op  Op      `json:"op"`
 	E   string  `json:"e"`
 	B   *string `json:"b,omitempty"`
+	N   *int64  `json:"n,omitempty"`
 	Msg string  `json:"msg,omitempty"`
 }
 
@@ -54,10 +55,22 @@ type Run struct {
 	Threads int     `json:"threads"`
 	Init    []Op    `json:"init,omitempty"` // sequential set-up calls
 	Calls   []Call  `json:"calls"`
-	Final   []Final `json:"final"`           // read through the store after the run
+	Final   []Final `json:"final"` // read through the store after the run
 	Count   int64   `json:"count"`
 	Durable []Final `json:"durable,omitempty"` // sqlite: read after closing and reopening the database
 	DCount  int64   `json:"dcount,omitempty"`
+	Name    string  `json:"name,omitempty"` // forced schedules: which one
+	Hold    *Hold   `json:"hold,omitempty"`
+}
+
+// Hold describes the call that was kept inside its critical section while
+// the recorded calls were made: entered its callback at stamp Mid, returned
+// at stamp Ret, and is a writer (Mutate) or a reader (Walk).
+type Hold struct {
+	Writer bool  `json:"writer"`
+	Mid    int64 `json:"mid"` // stamp taken on entering the callback
+	Out    int64 `json:"out"` // stamp taken on leaving the callback (the lock is still held)
+	Ret    int64 `json:"ret"` // stamp taken after the holder returned
 }
 
 var errUser = errors.New("user callback failed")
@@ -123,6 +136,13 @@ func incr(bs []byte) ([]byte, bool) {
 }
 
 func apply(kv *pisces.KV, op Op) (e, msg string, b *string) {
+	e, msg, b, _ = applyCb(kv, op, nil)
+	return
+}
+
+// applyCb is apply with a hook run inside the Mutate callback (before the
+// increment), and also returns the count for op "count".
+func applyCb(kv *pisces.KV, op Op, inCallback func()) (e, msg string, b *string, n *int64) {
 	defer func() {
 		if r := recover(); r != nil {
 			e, msg = "panic", fmt.Sprint(r)
@@ -139,6 +159,9 @@ func apply(kv *pisces.KV, op Op) (e, msg string, b *string) {
 			// that other goroutines really arrive while it is in progress
 			for i := 0; i < 3000; i++ {
 				atomic.AddInt64(&spin, 1)
+			}
+			if inCallback != nil {
+				inCallback()
 			}
 			nv, ok := incr([]byte(*p))
 			if !ok {
@@ -170,6 +193,12 @@ func apply(kv *pisces.KV, op Op) (e, msg string, b *string) {
 		if err == nil {
 			s := hx2(bs)
 			b = &s
+		}
+	case "count":
+		var c int64
+		c, err = kv.Count()
+		if err == nil {
+			n = &c
 		}
 	default:
 		panic("unknown op " + op.Op)
@@ -314,69 +343,173 @@ func (e *env) reopen() *pisces.KV {
 	return pisces.NewOrderedSqlite3KV(e.db, "verifkv")
 }
 
-// forced runs the schedule "a reader is inside its walk while a Mutate runs
-// to completion, and then other calls are made, still during the walk":
-// goroutine 0 walks and, inside the callback of the first entry, waits for
-// goroutine 1's Mutate and then for goroutine 2's probes (each wait at most
-// 200 ms: on the memory backend writers are blocked by the read lock until the
-// walk ends, and simply run afterwards). Returns the Mutate and the probes as
-// a history.
-func forced(kv *pisces.KV, k, j string) []Call {
-	var clock int64
-	timed := func(t int, op Op) Call {
-		c := Call{T: t, Op: op}
-		c.Inv = atomic.AddInt64(&clock, 1)
-		c.E, c.Msg, c.B = apply(kv, op)
-		c.Ret = atomic.AddInt64(&clock, 1)
-		return c
+// ---- forced schedules ------------------------------------------------
+//
+// A call is kept inside its critical section by a callback that waits (the
+// Do of a Walk holds the read lock / SHARED, the function of a Mutate holds
+// the write lock / the open transaction) while other goroutines make calls.
+// Every wait has a time limit: where the backend makes the other goroutine
+// block (memory backend: the lock), the holder goes on after the limit and
+// the blocked call completes afterwards - which is what the model predicts
+// and what the recorded stamps must show.
+
+const forcedWait = 150 * time.Millisecond
+
+type forcedRec struct {
+	clock int64
+	kv    *pisces.KV
+}
+
+func (f *forcedRec) timed(t int, op Op, inCallback func()) Call {
+	c := Call{T: t, Op: op}
+	c.Inv = atomic.AddInt64(&f.clock, 1)
+	c.E, c.Msg, c.B, c.N = applyCb(f.kv, op, inCallback)
+	c.Ret = atomic.AddInt64(&f.clock, 1)
+	return c
+}
+
+func waitFor(ch chan struct{}) {
+	select {
+	case <-ch:
+	case <-time.After(forcedWait):
 	}
-	inWalk := make(chan struct{})
-	g1done := make(chan struct{})
-	probe := make(chan struct{})
-	g2done := make(chan struct{})
-	var c1 Call
-	var probes []Call
-	go func() {
-		<-inWalk
-		c1 = timed(1, Op{Op: "incr", K: k})
-		close(g1done)
-	}()
-	go func() {
-		<-probe
-		for _, op := range []Op{{Op: "getbytes", K: k}, {Op: "append", K: j, V: h("7")}, {Op: "getbytes", K: j},
-			{Op: "incr", K: k}, {Op: "getbytes", K: k}} {
-			probes = append(probes, timed(2, op))
-		}
-		close(g2done)
-	}()
+}
+
+// forcedWalk: goroutine 0 walks; inside the callback of the first entry
+// goroutine 1 runs [during] and then goroutine 2 runs [probes]; after the
+// walk goroutine 3 runs [after].
+func forcedWalk(kv *pisces.KV, during, probes, after []Op) ([]Call, *Hold) {
+	f := &forcedRec{kv: kv}
+	hold := &Hold{Writer: false}
+	var c1, c2 []Call
+	d1 := make(chan struct{})
+	d2 := make(chan struct{})
 	first := true
-	wait := func(ch chan struct{}) {
-		select {
-		case <-ch:
-		case <-time.After(200 * time.Millisecond):
-		}
-	}
 	it := &pisces.Iter{
 		Make: func() interface{} { return new(json.RawMessage) },
 		Do: func(cls string, v interface{}) error {
-			if first {
-				first = false
-				close(inWalk)
-				wait(g1done)
-				close(probe)
-				wait(g2done)
+			if !first {
+				return nil
 			}
+			first = false
+			hold.Mid = atomic.AddInt64(&f.clock, 1)
+			go func() {
+				for _, op := range during {
+					c1 = append(c1, f.timed(1, op, nil))
+				}
+				close(d1)
+			}()
+			waitFor(d1)
+			go func() {
+				for _, op := range probes {
+					c2 = append(c2, f.timed(2, op, nil))
+				}
+				close(d2)
+			}()
+			waitFor(d2)
+			hold.Out = atomic.AddInt64(&f.clock, 1)
 			return nil
 		},
 	}
 	kv.Walk(it)
-	if first {
-		close(inWalk)
-		close(probe)
+	hold.Ret = atomic.AddInt64(&f.clock, 1)
+	if first { // nothing to walk over: no schedule was forced
+		close(d1)
+		close(d2)
 	}
-	<-g1done
-	<-g2done
-	return append([]Call{c1}, probes...)
+	<-d1
+	<-d2
+	calls := append(append([]Call{}, c1...), c2...)
+	for _, op := range after {
+		calls = append(calls, f.timed(3, op, nil))
+	}
+	return calls, hold
+}
+
+// forcedMutate: goroutine 0 runs Mutate(k); inside its function (the value
+// has been read, nothing written yet) goroutine 1 runs [during]; when
+// [bothRead] is set the first of these is a Mutate whose own function waits
+// for goroutine 0's Mutate to finish, and goroutine 0 only waits until that
+// function has been entered (both have read, then 0 writes first).
+func forcedMutate(kv *pisces.KV, k string, during []Op, bothRead bool, after []Op) ([]Call, *Hold) {
+	f := &forcedRec{kv: kv}
+	hold := &Hold{Writer: true}
+	var c1 []Call
+	d1 := make(chan struct{})
+	entered := make(chan struct{})
+	zeroDone := make(chan struct{})
+	c0 := f.timed(0, Op{Op: "incr", K: k}, func() {
+		hold.Mid = atomic.AddInt64(&f.clock, 1)
+		go func() {
+			for i, op := range during {
+				var cb func()
+				if bothRead && i == 0 {
+					cb = func() { close(entered); waitFor(zeroDone) }
+				}
+				c1 = append(c1, f.timed(1, op, cb))
+			}
+			close(d1)
+		}()
+		if bothRead {
+			waitFor(entered)
+		} else {
+			waitFor(d1)
+		}
+		hold.Out = atomic.AddInt64(&f.clock, 1)
+	})
+	hold.Ret = c0.Ret
+	close(zeroDone)
+	<-d1
+	calls := append([]Call{c0}, c1...)
+	for _, op := range after {
+		calls = append(calls, f.timed(3, op, nil))
+	}
+	return calls, hold
+}
+
+type forcedCase struct {
+	name string
+	run  func(kv *pisces.KV) ([]Call, *Hold)
+}
+
+func forcedFamily(a, b, n string) []forcedCase {
+	rd := []Op{{Op: "getbytes", K: a}, {Op: "getbytes", K: b}, {Op: "getbytes", K: n}}
+	rdc := append(append([]Op{}, rd...), Op{Op: "count"})
+	walk := func(name string, during ...Op) forcedCase {
+		return forcedCase{"walk/" + name, func(kv *pisces.KV) ([]Call, *Hold) { return forcedWalk(kv, during, rd, rdc) }}
+	}
+	return []forcedCase{
+		// the schedule on which sqlite was seen to keep a refused transaction open
+		{"walk/incr+writes", func(kv *pisces.KV) ([]Call, *Hold) {
+			return forcedWalk(kv, []Op{{Op: "incr", K: a}},
+				[]Op{{Op: "getbytes", K: a}, {Op: "append", K: b, V: h("7")}, {Op: "getbytes", K: b}, {Op: "incr", K: a}, {Op: "getbytes", K: a}}, rdc)
+		}},
+		walk("incr", Op{Op: "incr", K: a}),
+		walk("append", Op{Op: "append", K: b, V: h("7")}),
+		walk("add", Op{Op: "add", K: n, V: h("1")}),
+		walk("emplace", Op{Op: "emplace", K: n, V: h("2")}),
+		walk("replace", Op{Op: "replace", K: b, V: h("5")}),
+		walk("remove", Op{Op: "remove", K: b}),
+		walk("add-existing+emplace-existing", Op{Op: "add", K: a, V: h("3")}, Op{Op: "emplace", K: b, V: h("4")}),
+		{"mutate/mutate-inside", func(kv *pisces.KV) ([]Call, *Hold) {
+			return forcedMutate(kv, a, []Op{{Op: "incr", K: a}}, false, rdc)
+		}},
+		{"mutate/both-read-then-write", func(kv *pisces.KV) ([]Call, *Hold) {
+			return forcedMutate(kv, a, []Op{{Op: "incr", K: a}}, true, rdc)
+		}},
+		{"mutate/replace-inside", func(kv *pisces.KV) ([]Call, *Hold) {
+			return forcedMutate(kv, a, []Op{{Op: "replace", K: a, V: h("41")}}, false, rdc)
+		}},
+		{"mutate/remove-inside", func(kv *pisces.KV) ([]Call, *Hold) {
+			return forcedMutate(kv, a, []Op{{Op: "remove", K: a}}, false, rdc)
+		}},
+		{"mutate/readers-inside", func(kv *pisces.KV) ([]Call, *Hold) {
+			return forcedMutate(kv, a, []Op{{Op: "getbytes", K: a}, {Op: "count"}, {Op: "get", K: b}}, false, rdc)
+		}},
+		{"mutate/other-key-inside", func(kv *pisces.KV) ([]Call, *Hold) {
+			return forcedMutate(kv, a, []Op{{Op: "incr", K: b}, {Op: "append", K: n, V: h("8")}}, false, rdc)
+		}},
+	}
 }
 
 func main() {
@@ -430,18 +563,21 @@ func main() {
 		}
 	}
 
-	// corpus first: the forced schedule on which sqlite was seen to keep a
-	// refused transaction open
+	// corpus first: the family of forced schedules
+	newKey := h("n")
 	for _, backend := range []string{"mem", "sqlite"} {
-		for j := 0; j < 1; j++ {
+		for _, fc := range forcedFamily(linKeys[0], linKeys[1], newKey) {
 			kv := ev.fresh(backend)
 			init := []Op{{Op: "add", K: linKeys[0], V: h("0")}, {Op: "add", K: linKeys[1], V: h("9")}}
 			for _, op := range init {
 				apply(kv, op)
 			}
-			calls := forced(kv, linKeys[0], linKeys[1])
-			emit(Run{Stream: "forced", Backend: backend, Threads: 2, Init: init, Calls: calls,
-				Final: finals(kv, linKeys), Count: count(kv)})
+			calls, hold := fc.run(kv)
+			if backend == "sqlite" {
+				hold = nil // sqlite refuses instead of blocking
+			}
+			emit(Run{Stream: "forced", Name: fc.name, Backend: backend, Threads: 4, Init: init, Calls: calls,
+				Final: finals(kv, []string{linKeys[0], linKeys[1], newKey}), Count: count(kv), Hold: hold})
 		}
 	}
 
